@@ -520,6 +520,23 @@ func (e *Engine) specCall(env *SpecEnv, x *SExpr) Value {
 			return v
 		}
 		sfail("str of unsupported value")
+	case "acq":
+		// acq(e): e evaluated in the state right after the most recent lock
+		// acquisition of this function (the snapshot the lock guarantees refer to)
+		need(1)
+		snap, ok := env.st.labels["acq:last"]
+		if !ok {
+			sfail("acq(e): no lock has been acquired on this path")
+		}
+		n := *env
+		view := *snap
+		sink := env.st
+		for sink.assumeTo != nil {
+			sink = sink.assumeTo
+		}
+		view.assumeTo = sink
+		n.st = &view
+		return e.evalSpec(&n, args[0])
 	case "unchanged":
 		need(1)
 		return e.specEq(env, e.evalSpec(env, args[0]), e.evalSpec(env.inOld(), args[0]))
